@@ -6,10 +6,15 @@
 extern crate alloc;
 
 pub mod util;
+pub mod csvstub;
 pub mod exp;
 pub mod world;
 pub mod c01;
 pub mod c02;
 pub mod c03;
+pub mod c04;
 pub mod c06;
+pub mod c09;
 pub mod c10;
+pub mod c12;
+pub mod c13;
